@@ -525,8 +525,9 @@ impl<'tcx> Cx<'tcx> {
                     t.push(("unwind", n(bb.as_usize())));
                 }
             }
-            TerminatorKind::Call { func, args, destination, target, unwind, .. } => {
+            TerminatorKind::Call { func, args, destination, target, unwind, fn_span, .. } => {
                 t.push(("k", s("call")));
+                t.push(("fn_at", span_json(self.tcx, *fn_span).0));
                 let fty = func.ty(self.body(), self.tcx);
                 match fty.kind() {
                     ty::FnDef(did, gargs) => {
